@@ -90,7 +90,7 @@ def sweep(u, prop, known, check_case, acyclic_only=False, parser_opts=None,
                     # case, not a harness failure; anything raised by the
                     # harness's own code stays a harness error
                     where = impl_frame(e)
-                    if where is None:
+                    if where is None and not isinstance(e, RecursionError):
                         raise
                     ctx.deviation(None, s, "the library raised while its "
                                   "result was being read",
